@@ -265,7 +265,7 @@ func c12Run(c *engine.Ctx) {
 			if !c.Quick() {
 				bound = 2
 			}
-		} else if !c.Quick() && si <= 3 {
+		} else if !c.Quick() && (si <= 3 || si == 8) {
 			bound = 3
 		}
 		// sequential reference (computed twice: the observations must be deterministic)
@@ -516,8 +516,22 @@ func c12Sequential(c *engine.Ctx) {
 			}
 		}
 	}
-	// bare lists and IRIs
+	// bare lists and IRIs, and values whose lists hold nil / typed-nil / empty members (an encoder that compacts or filters
+	// a list in place only shows on such lists)
 	for _, mk := range []func() ap.Item{
+		func() ap.Item {
+			return ap.ItemCollection{ap.IRI("https://example.com/1"), nil, &ap.Object{ID: "https://example.com/2", Type: ap.NoteType}, (*ap.Object)(nil), ap.IRI(""), ap.IRI("https://example.com/3")}
+		},
+		func() ap.Item {
+			nilly := func() ap.ItemCollection {
+				return ap.ItemCollection{nil, ap.IRI("https://example.com/a"), (*ap.Actor)(nil), &ap.Object{}, ap.IRI("https://example.com/b")}
+			}
+			return &ap.Activity{ID: "https://example.com/act", Type: ap.CreateType, To: nilly(), CC: nilly(), Bto: nilly(), BCC: nilly(), Audience: nilly(), Tag: nilly(),
+				Object: nilly(), Actor: &ap.Actor{ID: "https://example.com/p", Type: ap.PersonType, Streams: nilly()}}
+		},
+		func() ap.Item {
+			return &ap.OrderedCollection{ID: "https://example.com/oc", Type: ap.OrderedCollectionType, OrderedItems: ap.ItemCollection{(*ap.Object)(nil), ap.IRI("https://example.com/a"), nil, ap.IRI("https://example.com/b")}}
+		},
 		func() ap.Item { return ap.IRI("https://example.com/x?a=1#f") },
 		func() ap.Item {
 			col := make(ap.ItemCollection, 2, 8)
@@ -531,7 +545,9 @@ func c12Sequential(c *engine.Ctx) {
 		},
 	} {
 		mk := mk
-		c.Do("C12|sequential|bare", func() string { return fmt.Sprintf("every read-only operation on a bare %T with spare capacity", mk()) }, func(t *engine.T) {
+		c.Do("C12|sequential|bare", func() string {
+			return fmt.Sprintf("every read-only operation on a %T (bare list / spare capacity / nil and empty list members)", mk())
+		}, func(t *engine.T) {
 			t.Distinct(true)
 			x, twin := mk(), mk()
 			for _, op := range ops {
@@ -539,7 +555,7 @@ func c12Sequential(c *engine.Ctx) {
 				op.run(x, twin)
 				after := snap.Take(false, append([]any{x, twin}, c12Globals()...)...)
 				if before.Hash != after.Hash {
-					t.Fail(fmt.Sprintf("C12|sequential|%s|argument-modified|bare-%s", op.name, reflect.TypeOf(x).Name()), "%s modified a bare %T", op.name, x)
+					t.Fail(fmt.Sprintf("C12|sequential|%s|argument-modified|bare-%s", op.name, reflect.TypeOf(x).String()), "%s modified a %T (lists with nil/empty members or spare capacity)", op.name, x)
 				}
 				t.Ops(1)
 			}
